@@ -16,13 +16,14 @@ Theorem source_changes_only_marking_keys : forall k, In k src_nv_changed_keys ->
 Proof. exact src_changes_only_marking_keys. Qed.
 Print Assumptions source_changes_only_marking_keys.
 
-(* for every such call, whatever the clock reads: strictly later after serialization, everything else kept *)
-Theorem result_is_new_version : forall T nm c d ch now d' v,
+(* for every such call, whatever the clock reads: strictly later after serialization, and every other property is
+   what it was (as handed over for a dict; in its cleaned, stored form for an object of a class: `stored`) *)
+Theorem result_is_new_version : forall T nm cp ck c d ch now d' v,
   good_ver v -> NoDup (keys d) -> NoDup (keys ch) ->
   (forall k, In k (keys ch) -> In k src_nv_changed_keys) ->
   check_versionable T c d = Ok v ->
-  new_version T nm c d ch now = Ok d' ->
+  new_version T nm cp ck c d ch now = Ok d' ->
   later nm v d d' /\
-  (forall k, ustr_eqb k kmod = false -> ~ In k marking_keys -> pget k d' = pget k d).
+  (forall k, ustr_eqb k kmod = false -> ~ In k marking_keys -> plookup k d' = stored cp c k (pget k d)).
 Proof. exact marking_call_is_new_version. Qed.
 Print Assumptions result_is_new_version.
